@@ -62,6 +62,11 @@ class Setup:
                 self.init_perm = tuple(pair)
             self.fit_kwargs = dict(c.get("fit_kwargs", {}))
         self.pv = U.Pervaporation(membrane=self.membrane, mixture=self.mixture)
+        if c.get("budget"):
+            # twin checks only: a flux calculation needing more than `budget` evaluations raises solver.Budget
+            # (an Exception), which those checks treat like any other raise: the pair is not judged
+            from . import solver
+            self.pv = solver.ObservedPV(membrane=self.membrane, mixture=self.mixture).observe(budget=c["budget"], detect=False)
         self.conditions = U.make_conditions(self.mixture, self.area, self.t0, self.amount, self.x0, self.basis,
                                             self.mode, self.prog)
 
